@@ -745,12 +745,44 @@ def rule_vcs(ck: Check, repo: Repo) -> None:
         if flag not in cmd:
             r.violation(f"{G}._find_all_ignored_files", f"git flag {flag} missing",
                         f"the ignored-files query lacks {flag}: {cmd}", repo.loc(fn))
+    # the confirmed query: every flag of a VCS query selects or formats WHAT is listed - one that was not confirmed by
+    # reading git's documentation changes the set of 'ignored' files (reference = the argv confirmed on the pinned tree)
+    confirmed = {"ls-files", "--exclude-standard", "--ignored", "--others", "--directory", "--no-empty-directory", "-z"}
+    known_bad = {"--cached": "also lists TRACKED files that match an exclude pattern (git add -f, a rule added after the commit): they are"
+                             " skipped although git check-ignore says they are not ignored",
+                 "-c": "also lists TRACKED files that match an exclude pattern", "--modified": "lists modified tracked files as ignored",
+                 "-m": "lists modified tracked files as ignored", "--deleted": "lists deleted files", "--stage": "changes the output format",
+                 "--killed": "lists files that a checkout would remove"}
+    for flag in cmd:
+        if flag not in confirmed:
+            r.violation(f"{G}._find_all_ignored_files", f"git flag {flag} is not part of the confirmed ignored-files query",
+                        f"{cmd}: {known_bad.get(flag, 'an unconfirmed flag changes which files the query lists or how they are printed')}",
+                        repo.loc(fn))
     if ("-z" in cmd) != (sp == ["\0"]) or not sp:
         r.violation(f"{G}._find_all_ignored_files", "separator mismatch",
                     f"argv has -z: {'-z' in cmd} but output is split on {sp!r}", repo.loc(fn))
     if "-z" not in cmd:
         r.violation(f"{G}._find_all_ignored_files", "-z missing",
                     "without -z git quotes unusual file names and they are not recognised", repo.loc(fn))
+    # VCS queries inherit the user's environment: git finds the user-level configuration (core.excludesFile,
+    # ~/.config/git/ignore, safe.directory) through HOME / XDG_CONFIG_HOME / GIT_*; subprocess's env= REPLACES the
+    # environment, it does not extend it (library semantics)
+    n_sp = 0
+    for fq, f in repo.functions.items():
+        for c in ast.walk(f):
+            if isinstance(c, ast.Call) and ast.unparse(c.func) in ("subprocess.run", "subprocess.Popen", "subprocess.check_output", "subprocess.call", "subprocess.check_call"):
+                n_sp += 1
+                env = next((kw.value for kw in c.keywords if kw.arg == "env"), None)
+                txt = ast.unparse(env) if env is not None else None
+                ok = env is None or (isinstance(env, ast.Constant) and env.value is None) or "os.environ" in (txt or "") or "environ" in (txt or "")
+                r.instance(f"spawn:{fq}", {"function": fq, "env": txt, "inherits_environment": ok}, fq)
+                if not ok:
+                    r.violation(fq, f"VCS commands are run with a replaced environment (env={txt[:60]})",
+                                "without HOME / XDG_CONFIG_HOME git reads no user-level configuration: files ignored through core.excludesFile or"
+                                " ~/.config/git/ignore are no longer reported as ignored and become covered files (linted, annotated)",
+                                repo.loc(c))
+    if n_sp < 1:
+        raise AnalysisError("no subprocess call found (anchor vanished)")
     fn = repo.func(f"{G}._find_submodules")
     cmd = _command_consts(fn)
     sp = _split_arg(fn)
